@@ -32,6 +32,57 @@ SERIALIZE = {"tinycss2.serialize", "tinycss2.serializer.serialize"}
 FROZEN_ATTRS = {"prelude", "name", "lower_name", "at_keyword", "lower_at_keyword", "important", "type", "source_line", "source_column"}
 
 
+def snapshot_fills_ok(project, fi) -> bool:
+    """Every `map[id(x)] = V` in fi stores the lossless parse of x.content."""
+    cfg = build_cfg(fi.node)
+    org = Origins(project, fi, cfg)
+    sc = Scope(project, fi)
+    fills = []
+    for n2 in cfg.nodes:
+        b2 = n2.ast
+        if n2.kind == "stmt" and isinstance(b2, ast.Assign) and isinstance(b2.targets[0], ast.Subscript) and isinstance(b2.targets[0].slice, ast.Call) and sc.resolve(b2.targets[0].slice.func) == "builtins.id":
+            vo = org.of(n2.id, b2.value)
+            ko = org.of(n2.id, b2.targets[0].slice.args[0])
+            fills.append(vo[0] == "call" and vo[1] in PARSERS and bool(vo[2]) and vo[2][0] == ("attr", ko, "content"))
+    return bool(fills) and all(fills)
+
+
+def list_source_ok(project, fi, L, tgt, reach) -> bool:
+    """L is the list parsed (losslessly) from tgt.content, directly or through an id()-keyed snapshot map."""
+    if L[0] == "call" and L[1] in PARSERS and L[2] and L[2][0] == ("attr", tgt, "content"):
+        return True
+    # snapshot lookup by the identity of the same node: map[id(tgt)] / map.get(id(tgt))
+    key = None
+    holder = None
+    if L[0] == "index" and L[2][0] == "call" and L[2][1] == "builtins.id" and L[2][2] == (tgt,):
+        key, holder = L[2], L[1]
+    elif L[0] == "call" and L[1] == ".get" and L[4] is not None and L[2] and L[2][0][0] == "call" and L[2][0][1] == "builtins.id" and L[2][0][2] == (tgt,):
+        key, holder = L[2][0], L[4]
+    if key is None:
+        return False
+    if holder[0] == "param":
+        # the map is handed in: every reachable caller passes a map filled only with lossless parses (or forwards its own parameter)
+        ok = True
+        n = 0
+        for (cfi, cm, call) in call_sites(project, fi.qualname):
+            if cfi is None or cfi.qualname not in reach:
+                continue
+            try:
+                b = bind_args(fi, call)
+            except ValueError:
+                return False
+            a = b.get(holder[1])
+            if a is None:
+                continue       # omitted: None -> the lookup branch is not taken
+            n += 1
+            if cfi.qualname == fi.qualname and isinstance(a, ast.Name) and a.id == holder[1]:
+                continue       # recursion forwards the same map
+            ok = ok and isinstance(a, ast.Name) and snapshot_fills_ok(project, cfi)
+        return ok and n > 0
+    # a local map
+    return snapshot_fills_ok(project, fi)
+
+
 def flag_false(call, name):
     for kw in call.keywords:
         if kw.arg == name:
@@ -193,20 +244,9 @@ def run(project, chk):
                         if s1[0] == "call" and s1[1] in SERIALIZE and len(s1[2]) == 1:
                             L = s1[2][0]
                             tgt = org.of(node.id, t.value)
-                            if L[0] == "call" and L[1] in PARSERS and L[2] and L[2][0] == ("attr", tgt, "content"):
+                            alts = [x for x in (list(L[1]) if L[0] == "phi" else [L]) if x != ("const", None)]
+                            if alts and all(list_source_ok(project, f2, x, tgt, reach) for x in alts):
                                 good = True
-                            elif L[0] == "index" and L[2][0] == "call" and L[2][1] == "builtins.id" and L[2][2] == (tgt,):
-                                # snapshot map: must be filled only by map[id(x)] = parse_declaration_list(x.content, lossless)
-                                mname = a.value.args[0].args[0] if False else None
-                                fills = []
-                                for n2 in cfg.nodes:
-                                    b2 = n2.ast
-                                    if n2.kind == "stmt" and isinstance(b2, ast.Assign) and isinstance(b2.targets[0], ast.Subscript) and isinstance(b2.targets[0].slice, ast.Call) and sc2.resolve(b2.targets[0].slice.func) == "builtins.id":
-                                        vo = org.of(n2.id, b2.value)
-                                        ko = org.of(n2.id, b2.targets[0].slice.args[0])
-                                        fills.append(vo[0] == "call" and vo[1] in PARSERS and vo[2] and vo[2][0] == ("attr", ko, "content"))
-                                good = bool(fills) and all(fills)
-                                why += f" (map filled by {len(fills)} store(s))"
                     chk.check(good, "Q3", f2.short, norm_text(a), loc, ".content is re-built from the unfiltered list parsed from that same node",
                               how=f"value origin: {why[:160]}", message=f".content is assigned {why[:200]}: declarations/rules other than the adjusted value can be lost, reordered or replaced")
         # parsed lists must not be mutated / filtered in place
